@@ -277,6 +277,17 @@ def gen_file(rng, w, depth, outer_syms, earlier_syms):
       stmts.append(st)
       return stmts
     stmts.append(st)
+  if rng.random() < 0.25:
+    # a scoped reference to a class, written *before* the first statement that configures one of its methods
+    for i, st in enumerate(stmts):
+      if st.get('k') == 'bind' and st.get('_class') is not None and not st.get('_expect'):
+        hosts = [h for h in stmts[:i] if h.get('k') == 'bind' and h.get('_class') is None and not h.get('_expect')
+                 and h.get('_target') is not None]
+        if hosts:
+          h = rng.choice(hosts)
+          stmts.insert(i, {'k': 'bindref', 'sel': list(h['sel']), 'arg': h['arg'], 'ref': list(st['sel'][:-1]),
+                           '_target': h['_target'], '_reftarget': st['_class'], 'scope': rng.randint(1, len(REFSCOPES) - 1)})
+        break
   stmts.append({'_symtab': symtab, 'k': 'nop'})
   return stmts
 
@@ -417,6 +428,31 @@ def run_impl(case):
             except Exception as e:  # pylint: disable=broad-except
               effects.append([ci, n, f'{type(e).__name__}'])
     res['effects'] = effects
+    # ... and instances built through the references the configuration itself holds (scoped ones included): a
+    # reference written before a method of its class was configured keeps working
+    ref_effects = []
+    if err is None:
+      for params in list(gin.config._CONFIG.values()):  # pylint: disable=protected-access
+        for v in list(params.values()):
+          if not isinstance(v, gin.config.ConfigurableReference):
+            continue
+          cls = v.configurable.wrapped
+          if not isinstance(cls, type) or id(cls) not in {id(o) for o in objs}:
+            continue
+          ci = next(i for i, o in enumerate(objs) if o is cls)
+          try:
+            inst = v.scoped_configurable_fn()
+          except Exception as e:  # pylint: disable=broad-except
+            ref_effects.append([ci, '__init__', f'{type(e).__name__}', '/'.join(v.scopes)])
+            continue
+          for n, fid in dict(w['attrs'])[ci]:
+            if isinstance(objs[fid], types.FunctionType):
+              try:
+                out = getattr(inst, n)()
+                ref_effects.append([ci, n, out[-1] if isinstance(out[-1], int) else 'obj', '/'.join(v.scopes)])
+              except Exception as e:  # pylint: disable=broad-except
+                ref_effects.append([ci, n, f'{type(e).__name__}', '/'.join(v.scopes)])
+    res['ref_effects'] = ref_effects
     # the import manager config_str() would build from the imports recorded so far
     imps = gin.config._IMPORTS  # pylint: disable=protected-access
     order = list(imps)   # any order: the model sorts
@@ -547,6 +583,11 @@ def method_effects(case, impl):
     if got != v:
       return (f'method {n} configured through class {c} with {arg} = {v}: an instance of that class built through the '
               f'registry ran it with {got}')
+    bad_init = {(c2, sc) for c2, n2, _, sc in impl.get('ref_effects', []) if n2 == '__init__'}
+    for c2, n2, got2, sc in impl.get('ref_effects', []):
+      if (c2, n2) == (c, n) and (c2, sc) not in bad_init and got2 != v:
+        return (f'method {n} configured through class {c} with {arg} = {v}: an instance built through the reference '
+                f'@{sc + "/" if sc else ""}<class {c}> held by the configuration ran it with {got2}')
   return None
 
 
